@@ -83,7 +83,7 @@ class SimTransport(asyncio.Transport):
 
     def write(self, data) -> None:
         self.write_calls += 1
-        if self.fail_writes is not None:
+        if self.fail_writes is not None and not self._conn_lost and not self.sock.closed:
             raise self.fail_writes
         if self._eof:
             raise RuntimeError("Cannot call write() after write_eof()")
@@ -92,6 +92,11 @@ class SimTransport(asyncio.Transport):
         if self._conn_lost:
             self._conn_lost += 1
             self.dropped_writes.append(bytes(data))
+            return
+        if self.sock.closed:
+            # the fd was closed under the transport: send() fails with EBADF, nothing reaches the peer
+            self.dropped_writes.append(bytes(data))
+            self._fatal_error(OSError(9, "Bad file descriptor"), "Fatal write error on socket transport")
             return
         b = bytes(data)
         self.writes.append(b)
